@@ -206,6 +206,11 @@ def corpus(rng):
         out.append(mk_case("stray-v20", t, [], stray=["peewee-sqlite" + ("-testing" if t else "") + ".v20.db"]))
         out.append(mk_case("dotless-dir", t, mine, stray=["peewee-sqlite" + ("-testing" if t else "") + "/"]))
         out.append(mk_case("dotless-other-profile", t, mine, stray=["peewee-sqlite" + ("" if t else "-testing") + "/"]))
+        # legacy file written before bucketmodel had its datastr column: PeeweeStorage.__init__ (auto_migrate)
+        # upgrades the schema in place, so the bytes change while the rows do not (recorded, see oracle)
+        out.append(mk_case("old-schema-legacy", t, [{"testing": t, "old_schema": True,
+                                                      "ops": [create("old", na="nm"), create("old2"),
+                                                              ["insert_many", "old", events(rng, 5)]]}]))
     return out
 
 
@@ -286,6 +291,8 @@ def run_cases(cases, tmp, procs=12):
             runs[i]["mig"] = r
             runs[i]["after"] = legacy_prints(runs[i]["xdg"])
             runs[i]["listing_after"] = listing(runs[i]["xdg"])
+            if any(s.get("old_schema") and s["testing"] == cases[i]["new_testing"] for s in cases[i]["stores"]):
+                runs[i]["legacy_after_dump"] = child("dump", {"xdg": runs[i]["xdg"], "testing": cases[i]["new_testing"]}, tmp)
     return runs
 
 
@@ -419,7 +426,8 @@ def in_precondition(case, run):
     """default path, the sqlite file is new, the legacy file of the same profile exists, and no entry of the
     data dir is exactly the dot-less legacy name (detect_db_files would index past a one-element split)."""
     t = case["new_testing"]
-    if case["custom"] is not None or sq_file(t) in run["listing_before"]:
+    own = run["mig"].get("dbfile") or sq_file(t)       # the file the store actually opened
+    if case["custom"] is not None or own in run["listing_before"]:
         return False
     if "peewee-sqlite" + ("-testing" if t else "") in run["listing_before"]:
         return False
@@ -432,9 +440,17 @@ def oracle(case, run):
     m = run["mig"]
     t = case["new_testing"]
     # the legacy file itself is left untouched (every legacy file in the directory)
+    old_schema = {pw_file(s["testing"]) for s in case["stores"] if s.get("old_schema")}
     for f, fp in run["before"].items():
         af = run["after"].get(f)
         if af is None or af["sha256"] != fp["sha256"] or af["size"] != fp["size"]:
+            if f in old_schema and af is not None and run.get("legacy_after_dump") is not None:
+                # pre-datastr schema: the property's "untouched" is read as "same rows" (PeeweeStorage itself
+                # adds the column whenever it opens such a file); the dump after must equal the dump before
+                before = [s["dump"] for s in run["built"] if pw_file(s["testing"]) == f][0]
+                if run["legacy_after_dump"] != before:
+                    bad.append(("C14:legacy-content", f"legacy file {f}: rows changed by the migration"))
+                continue
             bad.append(("C14:legacy-bytes", f"legacy file {f} changed: {fp} -> {af}"))
     mine = [s for s in run["built"] if s["testing"] == t]
     pre = in_precondition(case, run)
@@ -596,6 +612,10 @@ def evaluate(ck, cases, runs, have_driver, record=True):
         univs.append(u)
     verdicts = []
     models = common.run_driver("C14", wires) if have_driver else [None] * len(cases)
+    created = {}
+    if have_driver:
+        for t, names in zip((True, False), common.run_driver("C14", [sx([5, True]), sx([5, False])])):
+            created[t] = ["".join(chr(x) for x in n) for n in names]
     for c, r, lab, u, w, mo in zip(cases, runs, labs, univs, wires, models):
         bad = oracle(c, r)
         verdicts.append(bad)
@@ -617,6 +637,9 @@ def evaluate(ck, cases, runs, have_driver, record=True):
                                    {"kind": c["kind"], "events_in_connection": n_events, "events_committed": m["committed_events"]})
         if any(v["mtime_ns"] != r["after"].get(f, {}).get("mtime_ns") for f, v in r["before"].items()):
             ck.count("legacy-mtime-changed")
+        if any(v["sha256"] != r["after"].get(f, {}).get("sha256") for f, v in r["before"].items()):
+            ck.count("legacy-bytes-changed (old-schema file upgraded by PeeweeStorage.auto_migrate)"
+                     if c["kind"] == "old-schema-legacy" else "legacy-bytes-changed")
         ck.note_case([c["new_testing"], c["custom"], r["listing_before"],
                       [[s["testing"], s["ops"]] for s in r["built"]]], nontrivial=(migrated and n_events > 0))
         if len(ck.samples) < 4 and migrated and 0 < n_events <= 8:
@@ -649,6 +672,15 @@ def evaluate(ck, cases, runs, have_driver, record=True):
                         break
             if mism is None and mc[1] != 1:
                 mism = "model reports the legacy tables changed"
+            if mism is None:
+                # the listing detect_db_files was shown = listing before + what the model says the
+                # constructor has created by then (sq_created_files); no listing at all when the model
+                # says the check is skipped
+                t = c["new_testing"]
+                skipped = c["custom"] is not None or sq_file(t) in r["listing_before"]
+                want = [] if skipped else [sorted(set(r["listing_before"]) | set(created[t]))]
+                if m["check_listings"] != want:
+                    mism = f"data dir as listed by detect_db_files: impl {m['check_listings']}, model {want}"
             if mism:
                 ck.disagreement("migrate", f"[{c['kind']}, testing={c['new_testing']}] {mism}",
                                 {"case": c, "listing_before": r["listing_before"], "mismatch": mism})
@@ -753,6 +785,14 @@ def main(argv=None):
     ck.trusted.append("oracle parts (no Section hypotheses; checked by the correspondence run): relational meaning of the SQL "
                       "statements of sqlite.py/peewee.py as in Model/SqliteStore.v, Model/PeeweeStore.v; peewee's ORDER BY "
                       "timestamp DESC tie order; file-system listing")
+    ck.trusted.append("tie B: translate/py2v.py + translate/k_migration.py (fail-closed reading of migration.py, "
+                      "SqliteStorage.__init__/create_bucket, PeeweeStorage.__init__); Bridge/BridgeMigration.v by reflexivity")
+    ck.coverage["ties"] = {
+        "peewee_v2_to_sqlite_v1 loop (argument binding, limit, id stripping, insert_many)": "A+B",
+        "detect_db_files / check_for_migration": "A+B",
+        "SqliteStorage.__init__ guard, default file names, commit after migration": "A+B",
+        "pw_step / sq_step (the stores themselves)": "A (here and in C02)",
+        "PeeweeStorage.__init__ (create_table, auto_migrate)": "oracle only (SHA-256 / content dump of the legacy file)"}
     return ck.finish(RULE)
 
 
